@@ -9,7 +9,11 @@
 (* outcomes (XargsExec).                                                   *)
 (* in = [stdin, delim (-1 = default mode), n, L, s, x, r, init (initial    *)
 (*       arguments, byte strings), cmdlen (bytes of the command word),     *)
-(*       script (outcome of the k-th invocation; 0 beyond its end)]        *)
+(*       script (outcome of the k-th invocation; 0 beyond its end),        *)
+(*       afile (the input comes from -a FILE instead of standard input -   *)
+(*       the same bytes, the same run), echo (no command at all: xargs     *)
+(*       itself writes each invocation's arguments, blank-separated, as    *)
+(*       one line on standard output)]                                     *)
 (***************************************************************************)
 EXTENDS Util, SequencesExt
 
@@ -37,6 +41,20 @@ SemOK(in, argvs, exit) ==
               /\ exit = ex.exit
          ELSE /\ argvs = [j \in DOMAIN o.execs |-> Argv(in, o.execs[j])]
               /\ exit = 1
+
+\* no command: what would have been the appended arguments of each invocation is one output line
+Flag(in, f) == f \in DOMAIN in /\ in[f]
+EchoLine(in, b) == Join([j \in DOMAIN b |-> Toks(in).toks[b[j]].b], <<32>>) \o <<10>>
+EchoOK(in, stdout, exit) ==
+  IF Toks(in).err THEN exit = 1
+  ELSE \E o \in B!RefOutcomes(BatchIn(in)) :
+         /\ stdout = Flatten([j \in DOMAIN o.execs |-> EchoLine(in, o.execs[j])])
+         /\ exit = o.exit
+\* stated for plain ASCII arguments (how other bytes are shown is the business of echo), no -s (the size of the
+\* command that is not there) and of course no child outcomes
+EchoDomain(in) ==
+  /\ in.s = 0 /\ in.init = <<>> /\ in.script = <<>>
+  /\ \A i \in DOMAIN in.stdin : in.stdin[i] < 128
 
 \* where the properties fix the outcome: input within C05's domain, outcomes within C19's, and no mixture of a
 \* batching error with failing children (which status wins is not said)
